@@ -205,6 +205,19 @@ CHECKS = {
              'validated by TLC.',
         design_ref='DESIGN.md section 3 (C09)',
         note='Trusts: TLC, twisted MemoryReactorClock; nonce-tcp is connected like tcp; handshake lines are scripted (C07).'),
+    'C11': dict(
+        technique='TLA+ spec EndToEnd.tla (caller, bus, exporter over four byte links; deliveries with read splitting and '
+                  'coalescing) model-checked by TLC incl. liveness under fair delivery; schedules replayed on real clients and a '
+                  'real bus; recorded schedules validated by TLC',
+        text='TLC checks that the method runs exactly once with the call\'s own argument, that the completion is what the method '
+             'produced (value or mirrored error) and - under fair delivery - that every call completes, over all delivery '
+             'interleavings of 1-3 concurrent calls with prefix deliveries and coalesced reads on the four links; every edge and '
+             'random walks are replayed on real DBusClientConnections attached to a real Bus (explicit and introspected proxies, '
+             'UNIX and non-UNIX transports, three return shapes, raising methods); random schedules with 3 concurrent calls and '
+             '2-4 clients are validated by TLC.',
+        design_ref='DESIGN.md section 3 (C11)',
+        note='Trusts: TLC; in-memory byte links; connection setup runs to quiescence before the modelled part; value fidelity '
+             'is C01/C02.'),
 }
 
 NOT_YET = 'check not built yet (build in progress; see DESIGN.md section 6)'
